@@ -1015,3 +1015,37 @@ def main(ctx):
     hd = ctx.pick(3, 4)
     ctx.histories("one-object-call-sequences", [()], execute, depth=hd, nodedup_depth=hd,
                   bounds=dict(ops=[str(o) for o in HOPS], depth=hd, htm_depth=HDEPTH))
+
+    # ------------------------------------------- several live objects (process-wide state)
+    # up to 3 HTM objects of different depth alive in one process, calls interleaved: the spatial-index tables
+    # and id masks are per-depth; anything the C++ library keeps in statics would leak between depths
+    from mc.worlds import object_world
+    WRA = np.array([10.0, 200.0, 359.9999999, 45.0, 0.0])
+    WDEC = np.array([-20.0, 45.0, 89.0, 0.0, 90.0])
+    WRA2 = np.concatenate([WRA + 0.3, WRA - 0.05, WRA])
+    WDEC2 = np.concatenate([WDEC * 0.99, WDEC * 0.999, WDEC])
+
+    def h_do(h, kind, op):
+        if op[0] == "ids":
+            return [h.lookup_id(WRA, WDEC)]
+        if op[0] == "intersect":
+            return [np.sort(h.intersect(10.0, 20.0, op[1], inclusive=op[2]))]
+        return list(h.bincount(0.01, 10.0, 3, WRA, WDEC, WRA2, WDEC2, getbins=False)) if op[0] == "bincount" else None
+
+    def h_check(kind, op, res):
+        depth = int(kind[1:])
+        if op[0] == "ids":
+            ids = np.asarray(res[0])
+            if ids.shape != (5,) or ids.min() < 8 * 4 ** depth or ids.max() >= 16 * 4 ** depth:
+                return "ids %r outside the range of depth %d" % (ids.tolist(), depth)
+
+    def h_modules():
+        import esutil.htm.htm as hm
+        return [hm]
+
+    def h_counts(r):
+        return [np.asarray(v) for v in r]
+
+    object_world(ctx, "several-objects", ["d3", "d6", "d9"], lambda kind: htm.HTM(int(kind[1:])),
+                 [("ids",), ("intersect", 1.0, True), ("intersect", 1.0, False), ("bincount",)], h_do, h_modules,
+                 depth=ctx.pick(4, 5), check=h_check, state=lambda h: getattr(h, "__dict__", {}))
